@@ -388,7 +388,12 @@ class Run:
             "wall_s": round(time.time() - self.t0, 2), "violations": len(self.violations),
             "known_findings_hit": sorted(self.known_hits.keys()), "notes": self.notes,
         }
-        with open(os.path.join(EVID, f"{self.prop}.json"), "w") as f:
+        evdir = EVID
+        if self.prop.startswith("X"):
+            # extension checks (behaviour outside the twenty listed properties) keep their evidence apart
+            evdir = os.path.join(EVID, "ext")
+            os.makedirs(evdir, exist_ok=True)
+        with open(os.path.join(evdir, f"{self.prop}.json"), "w") as f:
             json.dump(ev, f, indent=1, default=str)
         return 1 if self.violations else 0
 
